@@ -387,6 +387,12 @@ def main():
             rc, out, _ = coq_make(deps)
             if rc != 0:
                 proof_broken = "proof files no longer build: " + out[-1500:]
+        import hygiene
+        dirs = sorted({os.path.join(COQ, os.path.dirname(f)) for f in plugin.COQ_OBLIG + plugin.COQ_MODEL + list(getattr(plugin, "COQ_PROOF_DEPS", []))
+                       if os.path.dirname(f) not in ("Gen", "")})
+        dirty = hygiene.run(dirs + [os.path.join(COQ, f) for f in plugin.COQ_OBLIG])
+        if dirty and not proof_broken:
+            proof_broken = "forbidden declaration in the development: %s:%d: %s" % dirty[0]
         if not proof_broken:
             for f in plugin.COQ_OBLIG:
                 rc, out, dt = coqc(os.path.join(COQ, f))
